@@ -29,13 +29,14 @@ type c16Case struct {
 	Stdout string        `json:"stdout"` // pipe | devfull | closed
 	Pre    []ops.FSEntry `json:"pre,omitempty"`
 	// what the command line means, filled in by the generator (the oracle's reading of the documented flags)
-	Usage   string   `json:"usage,omitempty"` // non-empty: the command line is invalid for this reason
-	Format  string   `json:"format,omitempty"`
-	Massive bool     `json:"massive,omitempty"`
-	DryRun  bool     `json:"dryRun,omitempty"`
-	Exts    []string `json:"exts,omitempty"`
-	Target  string   `json:"target,omitempty"`
-	Strict  bool     `json:"strict,omitempty"`
+	Usage       string   `json:"usage,omitempty"` // non-empty: the command line is invalid for this reason
+	Format      string   `json:"format,omitempty"`
+	Massive     bool     `json:"massive,omitempty"`
+	DryRun      bool     `json:"dryRun,omitempty"`
+	Exts        []string `json:"exts,omitempty"`
+	Target      string   `json:"target,omitempty"`
+	Strict      bool     `json:"strict,omitempty"`
+	TinyTimeout bool     `json:"tinyTimeout,omitempty"` // --massive-timeout of a nanosecond: the run may legitimately time out
 }
 
 func init() { registerReplay("c16", c16Check) }
@@ -229,6 +230,13 @@ func c16Check(c c16Case) string {
 	if lib.Infra != "" {
 		return ""
 	}
+	if c.TinyTimeout && c.Usage == "" && cli.exit != 0 {
+		// the deadline struck: a failure with a diagnostic is the truthful outcome
+		if len(bytes.TrimSpace(cli.stderr)) == 0 {
+			return fmt.Sprintf("%sexit status %d after a timeout but nothing on stderr", head, cli.exit)
+		}
+		return ""
+	}
 	if lib.Crashed() != "" {
 		return "" // C12's subject
 	}
@@ -340,6 +348,10 @@ func c16Gen() *rapid.Generator[c16Case] {
 			case 1:
 				c.Args = append(c.Args, "--massive-timeout", rapid.SampledFrom([]string{"0", "-1s", "0s"}).Draw(t, "badTimeout"))
 				c.Usage = "non-positive --massive-timeout"
+			case 2:
+				c.Args = append(c.Args, "--massive-timeout", rapid.SampledFrom([]string{"1ns", "1us", "50us"}).Draw(t, "tinyTimeout"))
+				c.Massive = true
+				c.TinyTimeout = true
 			}
 			c.Stdout = rapid.SampledFrom([]string{"pipe", "pipe", "pipe", "devfull", "closed"}).Draw(t, "stdout")
 		case "mkdir", "m":
